@@ -1,5 +1,6 @@
 import Sif.Proofs.C13Forced
 import Sif.Generated.MarginKeys
+import Sif.Generated.MarginParams
 import Sif.Proofs.C13Examples
 /-
   C13 — margin positions agree with pool totals and are liquidated only when unhealthy.
@@ -291,6 +292,12 @@ theorem code_getMTPsForPool_selects_by_exact_asset :
     is followed by another component, except an account address (fixed length) followed by the 8-byte id -/
 theorem code_margin_keys_unambiguous :
     Sif.Generated.MarginKeys.keyCtors.all (fun c => Keys.compsOK c.comps) = true := by decide
+
+/-- the parameter getters the model reads as stored fields return the stored field unconditionally — in
+    particular `GetSafetyFactor`: a configured safety factor of 0 (liquidations suspended) is 0 for the
+    liquidation gate and for the open check, not a default -/
+theorem code_param_getters_return_stored_fields :
+    Sif.Generated.MarginParams.paramGetters = Keys.expectedGetters := by decide
 
 /- the conditions are not vacuous: the composite index key of the kind they exclude is refused -/
 example : Keys.compsOK [.const "MTPPoolIndexPrefix", .str "asset", .str "address", .u64 "id"] = false := by decide
